@@ -560,6 +560,8 @@ func (n *networkService) gcPods(ctx context.Context) error {
 	podResources := getPodResources(objList)
 
 	uidInLocal := sets.New[string]()
+	// a pod whose clean up fails must not stop the clean up of the others, it is retried in the next round
+podLoop:
 	for _, podRes := range podResources {
 		if podRes.PodInfo != nil {
 			if podRes.PodInfo.PodUID != "" {
@@ -595,7 +597,7 @@ func (n *networkService) gcPods(ctx context.Context) error {
 
 			err = n.resourceDB.Put(podID, podRes)
 			if err != nil {
-				return err
+				serviceLog.Error(err, "error update pod resource, skip", "pod", podID)
 			}
 			continue
 		}
@@ -628,7 +630,8 @@ func (n *networkService) gcPods(ctx context.Context) error {
 					ctx = logr.NewContext(ctx, serviceLog)
 					err = gcPolicyRoutes(ctx, v.ENIInfo.MAC, containerIP, podRes.PodInfo.Namespace, podRes.PodInfo.Name)
 					if err != nil {
-						return err
+						serviceLog.Error(err, "error clean up pod rules, skip", "pod", podID)
+						continue podLoop
 					}
 				}
 			}
@@ -642,13 +645,15 @@ func (n *networkService) gcPods(ctx context.Context) error {
 				NetworkResources: []eni.NetworkResource{res},
 			})
 			if err != nil {
-				return err
+				serviceLog.Error(err, "error release pod resource, skip", "pod", podID)
+				continue podLoop
 			}
 		}
 
 		err = n.deletePodResource(podRes.PodInfo)
 		if err != nil {
-			return err
+			serviceLog.Error(err, "error delete pod resource, skip", "pod", podID)
+			continue
 		}
 		uidInLocal.Delete(podRes.PodInfo.PodUID)
 		serviceLog.Info("removed pod", "pod", podID)
